@@ -314,6 +314,38 @@ class Taint(ast.NodeVisitor):
     def __init__(self):
         self.maybe = set()
         self.hits = []
+        self.array_params = set()
+
+    def test_depends(self, e):
+        """does the truth value of this branch condition depend on the VALUE of a possibly traced quantity?  A comparison of a traced value yields a
+        plain bool, so branching on it freezes one branch into the graph just like `if anp.any(g)` does."""
+        if isinstance(e, ast.UnaryOp) and isinstance(e.op, ast.Not):
+            return self.test_depends(e.operand)
+        if isinstance(e, ast.BoolOp):
+            if isinstance(e.op, ast.Or):
+                guarded = set()
+                for v in e.values:
+                    if isinstance(v, ast.Call) and isinstance(v.func, ast.Name) and v.func.id == "isbox" and len(v.args) == 1 and isinstance(v.args[0], ast.Name):
+                        guarded.add(v.args[0].id)
+                        continue
+                    names = {n.id for n in ast.walk(v) if isinstance(n, ast.Name) and n.id in self.maybe}
+                    if names and names <= guarded:
+                        continue
+                    if self.test_depends(v):
+                        return True
+                return False
+            return any(self.test_depends(v) for v in e.values)
+        if isinstance(e, ast.Compare):
+            if all(isinstance(o, (ast.Is, ast.IsNot)) for o in e.ops):
+                return False          # identity tests (`x is None`) do not look at the value
+            if all(isinstance(o, (ast.In, ast.NotIn)) for o in e.ops):
+                return False          # membership of a key / name in a container is structure
+            # only DIRECT uses of an array-valued rule parameter (primal argument, answer, cotangent, other operand) or wrapped calls on one; integers derived
+            # from shapes / repeat counts are structure, not traced values (the flow-insensitive taint cannot tell them apart, the parameter lists can)
+            direct = lambda x_: (isinstance(x_, ast.Name) and x_.id in self.array_params) or (isinstance(x_, ast.Call) and self.expr_maybe(x_) and any(
+                isinstance(n_, ast.Name) and n_.id in self.array_params for n_ in ast.walk(x_)))
+            return direct(e.left) or any(direct(c) for c in e.comparators)
+        return self.expr_maybe(e)
 
     def expr_maybe(self, e):
         if isinstance(e, ast.Name):
@@ -374,6 +406,9 @@ BRANCH_HITS = []
 def analyse_rule_function(rel, qual, node, params, rep_hits):
     t = Taint()
     t.maybe |= set(params)
+    STRUCT = {"argnum", "axis", "axes", "keepdims", "ddof", "n", "k", "offset", "axis1", "axis2", "ord", "norm", "shape", "dtype", "order", "num", "start", "mode", "width", "pad_width", "repeats", "reps",
+              "kth", "kind", "idx", "idxs", "UPLO", "full_matrices", "compute_uv", "subscript", "broadcast_idx", "new_shape", "source", "destination", "shift", "decimals", "copy", "casting", "subok"}
+    t.array_params |= {p_ for p_ in params if p_ not in STRUCT}
     changed = True
     assigns = [n for n in ast.walk(node) if isinstance(n, ast.Assign)]
     fors = [n for n in ast.walk(node) if isinstance(n, (ast.For, ast.comprehension))]
@@ -381,6 +416,8 @@ def analyse_rule_function(rel, qual, node, params, rep_hits):
     for ip in inner_params:
         for a in ip.args.args:
             t.maybe.add(a.arg)  # g, G of the inner closures
+            if a.arg not in STRUCT:
+                t.array_params.add(a.arg)
     while changed:
         changed = False
         for a in assigns:
@@ -400,7 +437,7 @@ def analyse_rule_function(rel, qual, node, params, rep_hits):
     for c in ast.walk(node):
         # (d) control flow on the VALUE of a possibly-traced quantity (cotangent, primal argument, answer): the branch taken is frozen into the
         #     recorded graph, so every derivative of the rule is that of ONE branch (pruned terms vanish at all higher orders)
-        if isinstance(c, (ast.If, ast.IfExp, ast.While, ast.Assert)) and t.expr_maybe(c.test):
+        if isinstance(c, (ast.If, ast.IfExp, ast.While, ast.Assert)) and t.test_depends(c.test):
             BRANCH_HITS.append((rel, qual, c.lineno, ast.unparse(c.test)[:90]))
     for c in ast.walk(node):
         if isinstance(c, ast.Call):
@@ -463,6 +500,18 @@ def run_trace(rep, tier):
                                 pass
                             analyse_rule_function(rel, f"{fn}({target})[{i}]", a, params, hits)
                             n_fun += 1
+        # (d) also for the operator / protocol methods of the box classes: `self` and the other operand may be traced at an enclosing level
+        if rel == RULE_FILES[0]:
+            for brel in ("autograd/numpy/numpy_boxes.py", "autograd/builtins.py"):
+                bpath = os.path.join(REPO, brel)
+                if not os.path.exists(bpath):
+                    continue
+                for cn in ast.parse(open(bpath).read()).body:
+                    if isinstance(cn, ast.ClassDef) and cn.name.endswith("Box"):
+                        for fn_ in cn.body:
+                            if isinstance(fn_, ast.FunctionDef):
+                                analyse_rule_function(brel, f"{cn.name}.{fn_.name}", fn_, [a.arg for a in fn_.args.args], [])
+                                n_fun += 1
         # registry closure: every @primitive helper of a rule module has rules in BOTH tables (so rules calling it stay differentiable)
         src_txt = open(path).read()
         for h in prim_helpers:
